@@ -298,6 +298,20 @@ func open(ctx context.Context, h *Handler, acked bool, s *xmpp.Session, start st
 	/* #nosec */
 	defer resp.Close()
 
+	// The stream is only open if the other side accepted it.
+	tok, err := resp.Token()
+	if err != nil {
+		return nil, err
+	}
+	respStart, ok := tok.(xml.StartElement)
+	if !ok {
+		return nil, errors.New("ibb: expected IQ start token in response to open request")
+	}
+	_, err = stanza.UnmarshalIQError(resp, respStart)
+	if err != nil {
+		return nil, err
+	}
+
 	conn, err := newConn(h, s, iq, false, MaxBufferSize), nil
 	if err != nil {
 		return nil, err
